@@ -112,6 +112,26 @@ def numeric_type_ok(x) -> bool:
 
 # ---- line coverage of anchored mechanisms (DESIGN.md §2.6) --------------------------------
 
+def with_little_stack(fn, free):
+    """fn() as a program would call it from deep inside its own recursion: only `free` interpreter frames are left.
+    -> ("answered", value) | ("ran-out-of-stack", None) | ("raised", exception)"""
+    import sys
+
+    depth, f = 0, sys._getframe()
+    while f is not None:
+        depth, f = depth + 1, f.f_back
+    old = sys.getrecursionlimit()
+    sys.setrecursionlimit(depth + free)
+    try:
+        return ("answered", fn())
+    except RecursionError:
+        return ("ran-out-of-stack", None)
+    except Exception as e:
+        return ("raised", e)
+    finally:
+        sys.setrecursionlimit(old)
+
+
 def module_functions(mod, prefix=None):
     """[(label, function)] for every function defined at the top level of `mod` as it is today (memoising wrappers
     unwrapped): monitors that want 'the planner's functions' ask for them by module, not by a list of private names"""
